@@ -287,6 +287,14 @@ class RepoIndex:
                 for t in st.targets:
                     if isinstance(t, ast.Name):
                         m.assigns.setdefault(t.id, []).append(st.value)
+                    elif isinstance(t, (ast.Tuple, ast.List)) and \
+                            isinstance(st.value, (ast.Tuple, ast.List)) and \
+                            len(t.elts) == len(st.value.elts) and \
+                            all(isinstance(x, ast.Name) for x in t.elts) and \
+                            not any(isinstance(x, ast.Starred) for x in st.value.elts):
+                        # `_N, _E, _S, _W = Position(-1, 0), ...`: one table entry per name
+                        for x, v in zip(t.elts, st.value.elts):
+                            m.assigns.setdefault(x.id, []).append(v)
             elif isinstance(st, ast.AnnAssign) and isinstance(st.target, ast.Name) \
                     and st.value is not None:
                 m.assigns.setdefault(st.target.id, []).append(st.value)
